@@ -24,7 +24,7 @@ Definition body_line_ok (keys : list string) (l : uline) : bool :=
   && negb (isspace (render_line l))
   && load_inert (render_line l) && expand_inert (render_line l).
 
-Definition text_ok (l : string) : bool := no_lg l.
+Definition text_ok (l : string) : bool := no_lg l && no_char LF l.
 
 Definition item16_ok (it : item16) : bool :=
   match it with
